@@ -463,8 +463,16 @@ func (e *Exec) builtin(st *State, name string, x *ast.CallExpr) Val {
 		case *types.Map:
 			return e.newMap(st, u, t)
 		case *types.Chan:
+			// a fresh channel: a reference nobody held before, hence not closed
 			r := e.sc.Fresh("chan", SInt)
-			e.sc.Assert(Not(Eq(r, IntLit(0))))
+			cnt, ok := st.ghosts["alloc"]
+			if !ok {
+				cnt = Val{T: e.sc.Const("alloc0", SInt)}
+				e.sc.Assert(Gt(cnt.T, IntLit(0)))
+			}
+			e.sc.Assert(Implies(st.pc, Eq(r, cnt.T)))
+			st.ghosts["alloc"] = Val{T: Add(cnt.T, IntLit(1))}
+			e.closed0()
 			return Val{T: r, GT: t}
 		}
 	case "new":
@@ -526,7 +534,7 @@ func (e *Exec) builtin(st *State, name string, x *ast.CallExpr) Val {
 		e.ghostEvent(st, "close", ch)
 		cl, ok := st.ghosts["closed"]
 		if !ok {
-			cl = Val{T: e.sc.Const("closed0", ArraySort(SInt, SBool))}
+			cl = Val{T: e.closed0()}
 		}
 		e.sideOblige(st, "close-closed", Not(Select(cl.T, ch.T)), x.Pos())
 		st.ghosts["closed"] = Val{T: Store(cl.T, ch.T, True)}
@@ -588,6 +596,11 @@ func (e *Exec) callValue(st *State, fv Val, sig *types.Signature, args []Val, x 
 		if c.Obj != nil {
 			return e.callFunc(st, c.Obj, nil, args, x)
 		}
+	}
+	if fc := e.frames[0].contract; fc != nil && fc.Opts["callbacks"] == "pure" {
+		// function-typed parameters are assumed not to touch the verified state (stated in the contract)
+		e.trust("callback " + e.src(x.Fun) + " assumed not to touch verified state (opt callbacks=pure)")
+		return e.opaqueCall(st, "function value "+e.src(x.Fun), sig, args, false)
 	}
 	return e.opaqueCall(st, "function value "+e.src(x.Fun), sig, args, true)
 }
